@@ -18,7 +18,12 @@ pub fn recv_body(api: &str, head: &[u8]) -> Option<Rut> {
     let mut buf = vec![0u8; 1024];
     if api == "flow" {
         let mut f = Flow::new(req).unwrap().proceed();
-        f.write(&mut buf).unwrap();
+        for _ in 0..400 {
+            if f.can_proceed() {
+                break;
+            }
+            f.write(&mut buf).unwrap();
+        }
         let mut f = match f.proceed().unwrap().unwrap() {
             SendRequestResult::RecvResponse(f) => f,
             _ => panic!("harness: expected RecvResponse"),
@@ -31,7 +36,12 @@ pub fn recv_body(api: &str, head: &[u8]) -> Option<Rut> {
         }
     } else {
         let mut c = Call::without_body(req).unwrap();
-        c.write(&mut buf).unwrap();
+        for _ in 0..400 {
+            if c.is_finished() {
+                break;
+            }
+            c.write(&mut buf).unwrap();
+        }
         let mut c = c.into_receive().unwrap();
         let (n, _) = c.try_response(head).unwrap().unwrap();
         assert!(n == head.len());
@@ -490,6 +500,36 @@ pub fn c07(o: &Opts, t: &mut Tracer) -> Value {
         }
         t.sig(format!("bcuts/{}", ci));
     }
+    // the payload is read with exactly fitting buffers, everything after it (CRLF, last chunk, trailers,
+    // final CRLF) is drained with a zero-length output buffer; and data-less bodies with zero-length buffers only
+    for (ci, c) in all.iter().enumerate() {
+        if o.quick() && ci % 4 != 1 {
+            continue;
+        }
+        let total = c.bytes.len();
+        let exact: Vec<usize> = c.pay.iter().map(|&(_, n)| n).collect();
+        let mut r = start_chunked(t, ["flow", "call"][ci % 2], c, "exact-then-zero");
+        let mut st = ReadState { pos: 0, delivered: 0, stop: ci % 3 == 0 };
+        if st.stop {
+            r.set_stop(true);
+        }
+        for &n in &exact {
+            ev_read(t, &mut r, &c.bytes, total, n, &mut st, &c.payload);
+        }
+        let mut guard = 0;
+        while !r.ready() && guard < 12 {
+            guard += 1;
+            let (cc, p, ok) = ev_read(t, &mut r, &c.bytes, total, 0, &mut st, &c.payload);
+            if !ok || cc + p == 0 {
+                break;
+            }
+        }
+        if !r.ready() {
+            t.ev(json!({"ev":"stuck","during":"chunked body never ended with zero-length output after all data was delivered"}));
+        }
+        t.class("r:zero-out-framing");
+        t.sig(format!("exact-zero/{}", ci));
+    }
     // random codings, random schedules
     let nrand = if o.quick() { 250 } else { 12000 };
     for i in 0..nrand {
@@ -511,7 +551,13 @@ pub fn c07(o: &Opts, t: &mut Tracer) -> Value {
 // ------------------------------------------------------------------------------------------ C08
 
 fn c08_length(t: &mut Tracer, api: &str, n: u64, arrive: &[usize], outs: &[usize], body: &[u8], tail: &[u8]) {
-    let head = format!("HTTP/1.1 200 OK\r\nContent-Length: {}\r\n\r\n", n);
+    // the same length framing under different response versions / neighbouring header fields
+    let head = match ((n % 1000) as usize + arrive.len() + outs.len()) % 5 {
+        0 => format!("HTTP/1.0 200 OK\r\nContent-Length: {}\r\n\r\n", n),
+        1 => format!("HTTP/1.0 200 OK\r\nTransfer-Encoding: chunked\r\nContent-Length: {}\r\n\r\n", n),
+        2 => format!("HTTP/1.1 404 Not Found\r\nServer: x\r\ncontent-length: {}\r\nConnection: keep-alive\r\n\r\n", n),
+        _ => format!("HTTP/1.1 200 OK\r\nContent-Length: {}\r\n\r\n", n),
+    };
     let r = recv_body(api, head.as_bytes());
     let mut r = match r {
         Some(r) => r,
